@@ -629,6 +629,7 @@ def analyse(rep: Report) -> None:
     rep.rule('R11.5', 'GUID byte order equals RFC 4122 bytes_le', floor=3)
     rep.rule('R11.6', 'PlayReady key-seed algorithm: hash input sequences, truncation and XOR fold', floor=6)
     rep.rule('R11.7', 'WRMHEADER: default kid, key and checksum come from one key; entries pair kid and checksum', floor=2)
+    rep.rule('R11.8', 'the requested systems and locations are what the drm= text says, item by item (C10 R10.5)', floor=1)
     location_gating(rep, 'R11.1')
     r11_2(rep)
     r11_3(rep)
@@ -636,3 +637,12 @@ def analyse(rep: Report) -> None:
     r11_5(rep)
     r11_6(rep)
     r11_7(rep)
+    # "the systems and locations requested": the drm= text is taken apart item by item (C10's rule)
+    from ..core import lift
+    from . import c10 as _c10
+
+    def _run(sub):
+        sub.rule('R10.5', 'every listed DRM system gets its own location set', floor=0)
+        _c10.r10_5(sub)
+    lift(rep, 'R11.8', 'C10', _run, ('R10.5',), 'dashlive/server/options/drm_options.py::_drm_selection_from_string',
+         'each listed system gets the locations written next to it')
